@@ -97,7 +97,7 @@ CHECKS = {
              'real accessor / State / bind code: first attachment is kept, second bind refused, copies independent; an AST '
              'scan shows State.bind_convention is the only store to .convention and Convention.bind its only caller; '
              'a taint scan finds no hash/id/clock/randomness/set iteration in detection code.',
-        text_extra='Also proved: a class already known through its entry point can be registered by hand and then wins ties (decision table row with a tie between two built-in conventions). Also proved for registered conventions answering arbitrary integers (not only the three named levels): the highest answer wins, ties by registration order then entry-point order. Two different classes with the same module and qualified name (products of one class factory) are both candidates.',
+        text_extra='Also proved: a class already known through its entry point can be registered by hand and then wins ties (decision table row with a tie between two built-in conventions). Also proved for registered conventions answering arbitrary integers (not only the three named levels): the highest answer wins, ties by registration order then entry-point order. Two different classes with the same module and qualified name (products of one class factory) are both candidates. Also: a convention constructed by hand on another dataset with its own coordinate names between two detections changes neither the class-level defaults nor any check_dataset answer nor the winner.',
         note=TRUST + 'Assumed: XR-ACCESSOR-CACHE (one cached accessor object per Dataset object, copies start empty), '
              'ENTRYPOINTS-DETERMINISTIC, PY-SORTED-STABLE. Histories are enumerated up to a bound (stated), the write-once '
              'invariant behind them is the unbounded argument.',
@@ -202,7 +202,7 @@ CHECKS = {
              'value of the looked-up cell; every table column is carried along row for row (paired by position whatever the table index); the '
              'coordinate columns become longitude / latitude coordinates; the table is not modified. '
              "Two obligation families ('drop' / 'fill' when every point misses) are a known finding.",
-        text_extra='The contract of get_index_for_point that the point scenarios rely on is re-verified in this check (C04 scenarios). History: a selection made after an earlier selection and an in-place change of the dataset (a variable replaced, one added) returns what the dataset holds now.',
+        text_extra='The contract of get_index_for_point that the point scenarios rely on is re-verified in this check (C04 scenarios). History: a selection made after an earlier selection and an in-place change of the dataset (a variable replaced, one added) returns what the dataset holds now. Also: requests a few 1e-8 apart on either side of a cell edge are looked up one by one (native), every requested point is looked up once in request order (obligation).',
         note=TRUST + 'Assumed: XR-ISEL-POINTWISE, XR-DROP-VARS, XR-ASSIGN-COORDS, XR-SQUEEZE, contract of get_index_for_point (C04); '
              'list / table length concrete (1..3). Stated library contracts for the table path: PD-FRAME (column access, reset_index(drop=True), copy, to_xarray), '
              'NP-COLUMN-STACK (numpy.c_), SH-POINTS (a point is a function of its two coordinates), XR-MERGE-ALIGN (inner / outer join on an increasing integer index, '
@@ -252,7 +252,7 @@ CHECKS = {
              'wet; depth dimension and coordinates removed; all other variables, coordinates and attributes bit-identical; input '
              'not modified. The cumulative-count argument uses lemma cumsum-monotone, proved by induction (base and step are '
              'discharged obligations) and instantiated explicitly (ghost lemma calls).',
-        text_extra='The depth coordinates may be given as any iterable, also a one-shot iterator or generator (scenarios for tuple / iterator / generator). Every dataset also carries a static depth-resolved variable (depth and the horizontal dimensions, no time): it is reduced like the others.',
+        text_extra='The depth coordinates may be given as any iterable, also a one-shot iterator or generator (scenarios for tuple / iterator / generator). Every dataset also carries a static depth-resolved variable (depth and the horizontal dimensions, no time): it is reduced like the others. Also under contract: Convention.depth_coordinates / Convention.ocean_floor for the five conventions with the layer variables held as coordinates or as plain variables (every layer variable of the dataset is handed to the reduction, with the time coordinate as the one non-spatial variable).',
         note=TRUST + 'Assumed: XR-CUMSUM-SKIPNA, XR-ARGMAX-FIRST, XR-ISEL-POINTWISE, XR-MERGE / XR-DROP-DIMS, PY-STR-HASH, INDUCTION-NAT (meta rule), '
              'A-FINITE-DATA (values are finite or NaN), STATIC-FLOOR-SHARED (variables of one group share the wet pattern; the violation '
              'of it by a gapless first variable is known finding D17, found natively). dataset.ems.ocean_floor() and byte-level values '
@@ -276,6 +276,7 @@ CHECKS = {
              'across each interior edge it is on, in increasing edge order, boundary edges add nothing. Also proved: decoding a table does not modify the '
              'dataset. BOUNDED (native, not proved): make_edge_node_array and make_face_edge_array (dictionaries keyed by node pairs) -- checked on '
              'generated meshes against an independent oracle for all 16 subsets of supplied tables x encodings, as are the two proved ones.',
+        text_extra='Also under contract: Mesh2DTopology._face_and_node_pair_iter at its yield statement for an arbitrary face (cut point; utils.pairwise on lists of 0..7 entries): the node list of face f is its own nodes in order, closed with the first, whatever the table width and fill representation.',
         note=TRUST + 'Assumed: VALID-UGRID (indexes in range, declared fill representation, face_dimension attribute present when the table is '
              'stored columns first; for the derived tables: the edges of one face are distinct, an edge has at most two faces, the two faces of an interior edge differ, '
              'a face is on at most max-node interior edges), NP-MA (masked arrays), PY-INT-STR-LEN, A-INT32-SIZE. make_edge_node_array / make_face_edge_array: bounded native stand-in only.',
